@@ -8,7 +8,7 @@ from .. import sem
 from .. import shadow as sh
 
 CHOICES = {
-    'ids': ('name', 'numbered'),          # feature ids equal to names / f1, f2, ...
+    'ids': ('name', 'numbered', 'rotated'),   # feature ids equal to names / f1, f2, ... / the name of the next feature
     'table_order': ('preorder', 'reversed', 'sorted'),
     'children_order': ('as-is', 'reversed'),
     'nary': (2, 3, 4, 7),
@@ -52,6 +52,8 @@ def in_fragment(m):
 def emit(model, ch, unknown_term=False):
     feats = sh.features(model)
     ids = {f[0]: (f[0] if ch['ids'] == 'name' else 'f%d' % (i + 1)) for i, f in enumerate(feats)}
+    if ch['ids'] == 'rotated':
+        ids = {f[0]: feats[(i + 1) % len(feats)][0] for i, f in enumerate(feats)}
     own = {}
     for (p, a, b, ks) in sh.relations(model):
         for k in ks:
